@@ -490,3 +490,63 @@ def check_C13(rep, tier):
     os.remove(hist)
     vr.sh.cleanup()
     rep.assumptions += VERIFY_ASSUME + ["hash-seed variation is obtained from std's per-map RandomState and from fresh processes; N runs per scenario is a sample of the seeds"]
+
+
+# ----------------------------------------------------------------------------- C20
+def check_C20(rep, tier):
+    rep.cov["rule"] = ("TLC runs the parser machine of Pae.tla on Pack(t,p) for every (type, payload) inside the bounds (all strings "
+                       "<= 3 over {space,'1','a'} plus lengths 9,10,11,99,100,101) and proves RoundTrip and Injective, and on every "
+                       "string up to MaxDec over the framing alphabet after the prefix (Total).  Replay: packed bytes must equal the "
+                       "specification's, unpack must return the pair; enumerated strings must decode to a pair or an error (no "
+                       "panic).  Seeded random ASCII pairs are validated as traces against Trace_Pae; binary payloads / Unicode types "
+                       "are round-tripped by the harness.  Non-trivial = round-trip pairs, and decode inputs with a malformed or "
+                       "overlong length field.")
+    sh = Sharder("C20")
+    exp = {}
+
+    def on_scn(s):
+        i = sh.add({k: s[k] for k in ("m", "kind", "input", "t", "p")})
+        exp[i] = (s["kind"], s["out"], s["typ"], s["payload"])
+        if s["kind"] == "rt" or s["out"] == "err":
+            rep.nontrivial(i)
+        if i % 4001 == 0:
+            rep.sample({"kind": s["kind"], "input": s["input"], "spec": {"out": s["out"], "type": s["typ"], "payload": s["payload"]}})
+
+    st = run_tlc("MC_C20", f"MC_C20_{tier}.cfg", "c20", on_scn=on_scn)
+    require_clean(st, "MC_C20")
+    rep.add_tlc(st, "MC_C20")
+    rep.vacuity(["AStripPrefix", "AReadLen1", "AReadType", "AReadLen2", "AReadPayload"])
+    rep.cov["exhaustive"] = True
+    sh.run()
+    n = 0
+    for r in sh.results():
+        n += 1
+        kind, out, typ, payload = exp[r["i"]]
+        o = r.get("out")
+        mk = lambda i=r["i"], r=r: {"scn": dict(sh.scenario(i), allow=["ok"] if exp[i][0] == "rt" else ["ok", "err"]), "actual": r}
+        if kind == "rt":
+            if o != "ok" or not r.get("bytes_ok") or not r.get("pair_ok"):
+                rep.mismatch({"kind": "round_trip", "actual": o, "bytes_ok": r.get("bytes_ok"), "pair_ok": r.get("pair_ok")}, mk)
+        else:
+            if o not in ("ok", "err"):
+                rep.mismatch({"kind": "decode_not_total", "actual": o}, mk)
+            elif o != out or (o == "ok" and (r.get("typ"), r.get("payload")) != (typ, payload)):
+                rep.cov["drift"] += 1
+    rep.cov["evaluations"] = n
+    rep.cov["traces_validated_against_impl"] = n
+    sh.cleanup()
+    trace = os.path.join(vlib.OUT, "c20.trace.ndjson")
+    run_itv(["record", "C20", str(1500 if tier == "quick" else 15000)], stdout_path=trace)
+    total, rejected, tst = validate_trace(trace, "Trace_Pae", "Trace_Pae.cfg", "t20", reset_ev="pack")
+    rep.cov["traces_validated_against_impl"] += total - len(rejected)
+    rep.cov["parts"]["trace"] = {"runs": total, "rejected": len(rejected), "states": tst.distinct}
+    for rj in rejected:
+        rep.mismatch({"kind": "trace_rejected"}, {"trace": rj["lines"], "at": rj["at"]})
+    os.remove(trace)
+    res = json.loads(run_itv(["record", "C20bin", str(10000 if tier == "quick" else 300000)]))
+    rep.cov["evaluations"] += res["n"]
+    rep.cov["binary_round_trips"] = res["n"]
+    for b in res["bad"]:
+        rep.mismatch({"kind": "binary_round_trip"}, {"case": b})
+    rep.assumptions += ["byte strings are modelled over a small framing alphabet; binary payloads are sampled, not enumerated",
+                        "for strings that are not Pack images C20 only demands totality; disagreement with the parser machine is drift"]
